@@ -254,6 +254,17 @@ def run(report, db, tier):
                                  'not what is passed to auth_token.join()')
     report.floor('call sites of generate_verification_hash', nsites, 1)
     sent_unchanged(report, db, cg)
+    # the server id that is hashed is the text the String codec decoded: it
+    # must be the server's bytes decoded as UTF-8, nothing stripped
+    from ..common import borrow
+    from . import c02
+    from ..fold import Folder
+    BASIC = 'minecraft.networking.types.basic'
+    borrow(report, 'R17.5', "the server id is decoded as the server sent it "
+           "(C02's length-prefixed String rule)",
+           lambda rid, c: rid == 'R02.4' and 'String' in c,
+           lambda sub: c02.r4(sub, db, Folder(db), db.modules[BASIC],
+                              c02.load_ref()))
 
 
 
